@@ -44,12 +44,63 @@ def err(e):
     return {'err': type(e).__name__, 'msg': str(e)[:160]}
 
 
-def arr(x, shape, dtype='d'):
-    return None if x is None else np.array(x, dtype=dtype).reshape(shape)
+# ---------------------------------------------------------------------------------------------------------
+# Every ndarray handed to pydl is registered: after the call it must be bit-identical to the snapshot taken
+# when it was created (a caller-owned argument is never written), and the result is checked for memory
+# shared with an argument.  A history runs several calls in one process on the SAME array objects
+# ({"ref": name} in place of a value list); {"prev": k} passes the object returned by step k.
+# ---------------------------------------------------------------------------------------------------------
+class NotRun(Exception):
+    pass
 
 
-def call(c):
+SHARED = {}     # name -> (array, snapshot bytes) for the history being run
+USED = []       # (field, array, snapshot bytes) of the call being run
+PREV = []       # results (python objects) of the previous steps of the history
+
+
+def snap(a):
+    return (a.dtype.str, a.shape, a.tobytes())
+
+
+def mk(values, shape, dtype, readonly=False):
+    a = np.array(values, dtype=dtype).reshape(shape)
+    if readonly:
+        a.setflags(write=False)
+    return a
+
+
+def arr(c, key, shape, dtype='d'):
+    """the ndarray for field `key` of call c (None if absent)"""
+    x = c.get(key)
+    if x is None:
+        return None
+    if isinstance(x, dict) and 'ref' in x:
+        a, s0 = SHARED[x['ref']]
+    elif isinstance(x, dict) and 'prev' in x:
+        a = PREV[x['prev']]
+        if a is None:
+            raise NotRun()
+        s0 = snap(a)
+    else:
+        a = mk(x, shape, (c.get('dtypes') or {}).get(key, dtype), bool(c.get('readonly')))
+        s0 = snap(a)
+    USED.append((key, a, s0))
+    return a
+
+
+def post(res, out_arrays):
+    """generic post-conditions of one call: arguments untouched, result memory"""
+    mutated = [k for k, a, s0 in USED if snap(a) != s0]
+    aliased = sorted(set(k for k, a, _ in USED for o in out_arrays if isinstance(o, np.ndarray) and np.shares_memory(o, a)))
+    res['mutated'] = mutated
+    res['aliased'] = aliased
+    return res
+
+
+def call(c, keep=None):
     f = c['f']
+    del USED[:]
     try:
         if f == 'reject':
             shape = tuple(c['shape'])
@@ -58,68 +109,104 @@ def call(c):
                 if c.get(k) is not None:
                     kw[k] = c[k]
             if c.get('sigma') is not None:
-                kw['sigma'] = c['sigma'] if not isinstance(c['sigma'], list) else arr(c['sigma'], shape)
+                kw['sigma'] = c['sigma'] if not isinstance(c['sigma'], (list, dict)) else arr(c, 'sigma', shape)
             if c.get('invvar') is not None:
-                kw['invvar'] = arr(c['invvar'], shape)
+                kw['invvar'] = arr(c, 'invvar', shape)
             if c.get('inmask') is not None:
-                kw['inmask'] = arr(c['inmask'], shape, 'bool')
-            om = arr(c['outmask'], shape, 'bool') if c.get('outmask') is not None else None
-            om_before = None if om is None else om.copy()
+                kw['inmask'] = arr(c, 'inmask', shape, 'bool')
+            om = arr(c, 'outmask', shape, 'bool')
             if 'grow' in c:
                 kw['grow'] = c['grow']
             if 'sticky' in c:
                 kw['sticky'] = c['sticky']
-            data = arr(c['data'], shape)
-            model = arr(c['model'], shape)
+            data = arr(c, 'data', shape)
+            model = arr(c, 'model', shape)
             mask, qdone = djs_reject(data, model, outmask=om, **kw)
+            if keep is not None:
+                keep.append(mask)
             if mask.shape != shape or mask.dtype != np.bool_ or not isinstance(qdone, bool):
-                return {'err': 'BadResult', 'msg': '%s %s %r' % (mask.shape, mask.dtype, qdone)}
-            return {'ok': {'mask': [bool(x) for x in mask.ravel()], 'qdone': qdone,
-                           'outmask_untouched': bool(om is None or np.array_equal(om, om_before))}}
+                return post({'err': 'BadResult', 'msg': '%s %s %r' % (mask.shape, mask.dtype, qdone)}, [mask])
+            return post({'ok': {'mask': [bool(x) for x in mask.ravel()], 'qdone': qdone}}, [mask])
         if f == 'interp':
             shape = tuple(c['shape'])
-            y = arr(c['y'], shape)
-            m = arr(c['mask'], shape, c.get('maskdtype', 'i4'))
-            x = arr(c.get('xval'), shape)
-            y0 = y.copy()
+            y = arr(c, 'y', shape)
+            m = arr(c, 'mask', shape, c.get('maskdtype', 'i4'))
+            x = arr(c, 'xval', shape)
             if c.get('direct1'):
                 out = djs_maskinterp1(y, m, xval=x, const=bool(c.get('const')))
             else:
                 out = djs_maskinterp(y, m, xval=x, axis=c.get('axis'), const=bool(c.get('const')))
+            if keep is not None:
+                keep.append(out)
             if out.shape != shape:
-                return {'err': 'BadResult', 'msg': str(out.shape)}
+                return post({'err': 'BadResult', 'msg': str(out.shape)}, [out])
             nd = len(shape)
             ax = nd - 1 - (c.get('axis') or 0)
             idx = np.arange(y.size).reshape(shape)
-            return {'ok': [float(v) for v in out.ravel()], 'input_untouched': bool(np.array_equal(y, y0)),
-                    'np_lines': np.moveaxis(idx, ax, -1).reshape(-1, shape[ax]).tolist()}
+            return post({'ok': [float(v) for v in out.ravel()], 'dtype': str(out.dtype),
+                         'np_lines': np.moveaxis(idx, ax, -1).reshape(-1, shape[ax]).tolist()}, [out])
         if f == 'aesth':
-            flux = np.array(c['flux'], dtype='d')
-            iv = np.array(c['invvar'], dtype='d')
+            n = len(c['flux']) if isinstance(c['flux'], list) else None
+            flux = arr(c, 'flux', (n,) if n is not None else None)
+            iv = arr(c, 'invvar', (len(c['invvar']),) if isinstance(c['invvar'], list) else None)
             out = aesthetics(flux, iv, method=c['method'])
-            return {'ok': [float(v) for v in out]}
+            if keep is not None:
+                keep.append(out)
+            return post({'ok': [float(v) for v in out], 'dtype': str(out.dtype)}, [out])
         if f == 'median':
             shape = tuple(c['shape'])
-            a = arr(c['xs'], shape)
+            a = arr(c, 'xs', shape)
             out = djs_median(a, width=c['width'], boundary='reflect')
+            if keep is not None:
+                keep.append(out)
             if out.shape != shape:
-                return {'err': 'BadResult', 'msg': str(out.shape)}
-            return {'ok': [float(v) for v in out.ravel()]}
+                return post({'err': 'BadResult', 'msg': str(out.shape)}, [out])
+            return post({'ok': [float(v) for v in out.ravel()]}, [out])
         if f == 'sky':
             shape = tuple(c['shape'])
-            iv = arr(c['invvar'], shape)
-            om = None if c.get('mask') is None else np.array(c['mask'], dtype=c['dtype']).reshape(shape)
-            am = np.zeros(shape, dtype=c['dtype'])
+            iv = arr(c, 'invvar', shape)
+            om = arr(c, 'mask', shape, c['dtype'])
+            am = mk(np.zeros(shape), shape, c['dtype'], bool(c.get('readonly')))
+            USED.append(('andmask', am, snap(am)))
             kw = {}
             if c.get('ngrow') is not None:
                 kw['ngrow'] = c['ngrow']
             out = skymask(iv, am, om, **kw)
+            if keep is not None:
+                keep.append(out)
             if out.shape != shape:
-                return {'err': 'BadResult', 'msg': str(out.shape)}
-            return {'ok': [float(v) for v in out.ravel()]}
+                return post({'err': 'BadResult', 'msg': str(out.shape)}, [out])
+            return post({'ok': [float(v) for v in out.ravel()]}, [out])
+        if f == 'history':
+            return history(c)
         return {'err': 'BadCall'}
     except Exception as e:  # noqa: BLE001 - the error class is the observation
-        return err(e)
+        r = err(e)
+        if keep is not None:
+            keep.append(None)
+        try:
+            return post(r, [])
+        except Exception:  # noqa: BLE001
+            return r
+
+
+def history(h):
+    """several calls in one process on the same array objects (the harness compares every step with the model's
+    answer for the ORIGINAL values)"""
+    SHARED.clear()
+    del PREV[:]
+    spec = h['arrays']
+    for name, a in spec.items():
+        x = mk(a['v'], tuple(a['shape']), a['dtype'], bool(a.get('readonly')))
+        SHARED[name] = (x, snap(x))
+    steps = []
+    for st in h['steps']:
+        keep = []
+        r = call(st, keep)
+        PREV.append(keep[0] if keep else None)
+        steps.append(r)
+    SHARED.clear()
+    return {'steps': steps}
 
 
 def main():
